@@ -38,7 +38,7 @@ def main(argv):
                 for enc in (("auto", "no") if cfg["priv"] else ("auto",)):
                     for body in ("resp", "report"):
                         for mis in (None, "user", "user-extended", "user-prefix", "user-empty", "engine", "engine-extended", "engine-prefix",
-                                    "engine-empty", "msgid", "rid", "msgid-2^31", "rid-2^31", "rid+2^32", "msgid+2^32", "msgid-2^32", "msgid+2^48", "rid-2^32", "rid+2^62"):
+                                    "engine-empty", "msgid", "rid", "msgid-2^31", "rid-2^31", "rid+2^32", "msgid+2^32", "msgid-2^32", "msgid+2^48", "rid-2^32", "rid+2^62", "rid+reportable", "msgid+reportable", "user+reportable"):
                             if mis and (mac != "valid" or enc != "auto") and not thorough:
                                 continue
                             spec = {"vbs": vb.hex(), "mac": mac, "encrypt": enc}
@@ -72,6 +72,11 @@ def main(argv):
                                 spec["rid"] = "same+4294967296"
                             elif mis in ("msgid+2^32", "msgid-2^32", "msgid+2^48"):
                                 spec["msgid"] = "same" + {"msgid+2^32": "+4294967296", "msgid-2^32": "-4294967296", "msgid+2^48": "+281474976710656"}[mis]
+                            elif mis in ("rid+reportable", "msgid+reportable", "user+reportable"):
+                                # the reportable bit of msgFlags set on a RESPONSE (an agent never does): the mismatch must still count
+                                spec[{"rid+reportable": "rid", "msgid+reportable": "msgid", "user+reportable": "user"}[mis]] = \
+                                    {"rid+reportable": "same+7", "msgid+reportable": "same+7", "user+reportable": b"other".hex()}[mis]
+                                spec["flags_or"] = 4
                             elif mis in ("rid-2^32", "rid+2^62"):
                                 spec["rid"] = "same" + {"rid-2^32": "-4294967296", "rid+2^62": "+4611686018427387904"}[mis]
                             sc["steps"].append({"op": "get", "args": ["1.3.6.1.2.1.1.5.0"], "replies": [[spec]]})
